@@ -441,7 +441,9 @@ def run_lb(program):
 # family 'snap': generation snapshot of VerifyingAdapterRegistry over chains of 2..4 registries
 # ---------------------------------------------------------------------------
 
-SNAP_MUT = ['register', 'unregister', 'subscribe', 'unsubscribe', 'rebase']
+SNAP_MUT = ['register', 'unregister', 'subscribe', 'unsubscribe', 'rebase',
+            # two steps with lookups in between: registry k gains a new (empty) base, the front registry is asked, the new base changes
+            'rebase, lookups, register in the new base', 'rebase, lookups, subscribe in the new base']
 
 
 def run_snap(program):
@@ -473,7 +475,7 @@ def run_snap(program):
             regs[k].subscribe([IR], IP, 'pre-sub')
         return regs
 
-    def mutate(regs):
+    def mutate(regs, between=True):
         mm = SNAP_MUT[m]
         if mm == 'register':
             regs[k].register([IR], IP, '', 'new-adapter')
@@ -483,11 +485,21 @@ def run_snap(program):
             regs[k].subscribe([IR], IP, 'new-sub')
         elif mm == 'unsubscribe':
             regs[k].unsubscribe([IR], IP, 'pre-sub')
-        else:
+        elif mm == 'rebase':
             extra = VerifyingAdapterRegistry()
             extra.register([IR], IP, '', 'from-new-base')
             regs[k].__bases__ = regs[k].__bases__ + (extra,)
             regs.append(extra)
+        else:
+            extra = VerifyingAdapterRegistry()
+            regs[k].__bases__ = regs[k].__bases__ + (extra,)
+            regs.append(extra)
+            if between:
+                obs(regs[0])
+            if 'register' in mm:
+                extra.register([IR], IP, '', 'late-in-new-base')
+            else:
+                extra.subscribe([IR], IP, 'late-sub-in-new-base')
 
     def obs(r):
         out = []
@@ -506,7 +518,7 @@ def run_snap(program):
     mutate(regs)
     trace['after'] = obs(regs[0])
     ref = build(True)
-    mutate(ref)
+    mutate(ref, between=False)
     trace['fresh'] = obs(ref[0])
     trace['stale'] = trace['after'] != trace['fresh']
     return trace
